@@ -270,7 +270,15 @@ func run(args map[string]string) {
 			g.keys = keyPool[:4+r.Intn(4)] // small alphabet: more collisions
 		}
 		var es []event
-		if r.Chance(2, 5) {
+		if r.Chance(1, 6) {
+			dup := r.Chance(1, 6)
+			es = g.inlineDoc(dup)
+			if dup {
+				dist["events/inline-dup"]++
+			} else {
+				dist["events/inline"]++
+			}
+		} else if r.Chance(2, 5) {
 			es = g.soup()
 			dist["events/soup"]++
 		} else {
